@@ -44,6 +44,8 @@ var goliteTargets = []goliteTarget{
 	{"rpc/socket/common.go", "parseHeader", "socket_parseHeader"},
 	{"rpc/udp/common.go", "makeHeader", "udp_makeHeader"},
 	{"rpc/udp/common.go", "parseHeader", "udp_parseHeader"},
+	{"rpc/websocket/common.go", "makeHeader", "ws_makeHeader"},
+	{"rpc/websocket/common.go", "parseHeader", "ws_parseHeader"},
 	{"io/encode.go", "utf16Length", "io_utf16Length"},
 	{"rpc/plugins/loadbalance/int_slice.go", "gcd", "lb_gcd"},
 }
